@@ -42,6 +42,8 @@ PAIRS = [
     ["# T\n\n> *a* [b](c)\n\n- x\n- y `z`\n", "1. q **w**\n\n```\nf\n```\n\nfoo\n***\nbar\n# H\nbaz\n> q\n"],
     ["[x `]` y](/u) *a _b_* ![i *j*](s)\n\n| a | b |\n|---|---|\n| 1 | 2 |\n", "- a\n  - b [l][r]\n\n[r]: /u 'T'\n\n<div>\nh\n</div>\n\n~~s~~ \"q\" -- (c)\n"],
 ]
+# quick tier: which configurations each fixed pair is swept under (the deep-nesting pair needs commonmark's limit of 20)
+PAIR_CFGS = {0: (0,), 1: (0, 1), 2: (1,), 3: (0,)}
 CFGS = [C.simple("commonmark"), C.simple("js-default", typographer=True), C.simple("commonmark", enable=["table", "strikethrough"], html=False)]
 STATES = ["fresh", "reconfigured", "warm"]
 
@@ -110,7 +112,7 @@ def enumerate_cases(tier: str, shard: int, nshards: int):
     idx = 0
     for pi, docs in enumerate(PAIRS):
         for ci, cfg in enumerate(CFGS[:2] if tier == "quick" else CFGS):
-            if tier == "quick" and pi % 2 != ci:
+            if ci not in PAIR_CFGS.get(pi, (pi % 2,)) and tier == "quick":
                 continue
             for state in ("fresh", "reconfigured"):
                 calls = ["render", "render"]
